@@ -210,7 +210,7 @@ def check_C07(tier, seed):
     o.assumptions = ['oracle is the library\'s own single-call form (one-shot function, or a fresh object driven by '
                      'one absorb and one squeeze); what function is computed is out of scope (C03/C04/C05 are N/A)',
                      'absorb-after-squeeze is not generated (no single-call form defines it)']
-    n = 60000 if tier == 'quick' else 600000
+    n = 200000 if tier == 'quick' else 600000
     cfgs = [('asm', 'rel'), ('c64', 'rel'), ('c32', 'rel'), ('dxor', 'rel'), ('gen', 'rel')]
     for i, (be, fl) in enumerate(cfgs):
         exe = world_exe('stream', be, (4, 2, 4), fl)
@@ -234,12 +234,13 @@ def check_C02(tier, seed):
                      'judged on the C entry points (one-shot, incremental, masked, SIV, ISAP) where the nonce in use is '
                      'passed or publicly readable; the C++ wrappers are judged under C14/C17',
                      'wipe-on-failure is demanded for one-shot decrypts with clen >= 16 only, as the property states']
-    n = 60000 if tier == 'quick' else 1500000
-    cfgs = [('asm', (4, 2, 4)), ('c64', (4, 2, 4)), ('c32', (4, 2, 4)), ('dxor', (4, 2, 4)), ('gen', (4, 2, 4))] if tier == 'quick' else \
-           [('asm', (4, 2, 4)), ('c64', (4, 2, 4)), ('c32', (4, 2, 4)), ('dxor', (4, 2, 4)), ('gen', (4, 2, 4)), ('c32', (3, 3, 3)), ('c64', (2, 1, 2)), ('asm', (4, 4, 4))]
+    n = 150000 if tier == 'quick' else 1500000
+    # the masked family exists in three backend families and with 1..4 data shares: every combination is in the cover
+    cfgs = [('asm', (4, 2, 4)), ('c64', (4, 2, 4)), ('c32', (4, 2, 4)), ('dxor', (4, 2, 4)), ('gen', (4, 2, 4)),
+            ('c64', (4, 3, 4)), ('asm', (3, 3, 3)), ('c32', (3, 3, 3)), ('asm', (4, 4, 4)), ('c64', (2, 1, 2)), ('c32', (2, 1, 3)), ('c64', (4, 4, 4)), ('c32', (4, 4, 4)), ('asm', (3, 1, 4))]
     for i, (be, sh) in enumerate(cfgs):
         exe = world_exe('channel', be, sh, 'rel')
-        o.add(D.run_batch(exe, n if i == 0 else n // 4, tier, seed, label='channel@%s-%d%d%d' % (be, *sh), crash_prop='C12'))
+        o.add(D.run_batch(exe, n if i == 0 else n // 4 if i < 5 else n // 10, tier, seed, label='channel@%s-%d%d%d' % (be, *sh), crash_prop='C12'))
     o.extra['distinct_states_measure'] = 'visited (event kind, family class, fault kind, accept/reject, length class) tuples'
     return o.finish()
 
@@ -252,7 +253,7 @@ def check_C14(tier, seed):
                      'substrate for "packet i equals the one-shot result under N+i" is the library\'s own one-shot function',
                      'C++ objects are keyed by default construction + set_key(full length); an object whose first packet under '
                      'an explicit 16-byte nonce is already wrong is not judged here (that is C17 matter)']
-    n = 60000 if tier == 'quick' else 1500000
+    n = 150000 if tier == 'quick' else 1500000
     cfgs = [('asm', (4, 2, 4)), ('c32', (4, 2, 4)), ('gen', (4, 2, 4))] if tier == 'quick' else [('asm', (4, 2, 4)), ('c64', (4, 2, 4)), ('c32', (4, 2, 4)), ('dxor', (4, 2, 4)), ('gen', (4, 2, 4))]
     for i, (be, sh) in enumerate(cfgs):
         exe = world_exe('channel', be, sh, 'rel')
@@ -271,7 +272,7 @@ def check_C15(tier, seed):
                      'status convention for save/load: non-zero = done, 0 = storage failed, -1 = invalid parameters (random.h after the F12 documentation fix)',
                      'reseed oracle counts caller-visible bytes only and never flags extra or earlier draws',
                      'a getrandom() request of <= 256 bytes is never split (Linux guarantee the code relies on)']
-    n = 24000 if tier == 'quick' else 600000
+    n = 40000 if tier == 'quick' else 600000
     cfgs = [('asm', (4, 2, 4)), ('c64', (4, 2, 4)), ('c32', (4, 2, 4)), ('dxor', (4, 2, 4)), ('gen', (4, 2, 4))]
     for i, (be, sh) in enumerate(cfgs):
         exe = world_exe('prng', be, sh, 'rel')
@@ -298,7 +299,7 @@ def check_C19(tier, seed):
                      'end in exit != 0 and no output file',
                      'file names shorter than the .ascon suffix are decrypted with -o (the default naming is undefined for them; memory safety of that path is C12)',
                      'asconsum check mode: names are drawn from an alphabet without leading spaces or ": "']
-    n = 8000 if tier == 'quick' else 150000
+    n = 12000 if tier == 'quick' else 150000
     exe = world_exe('cli', 'asm', (4, 2, 4), 'rel')
     o.add(D.run_batch(exe, n, tier, seed, label='cli@asm-rel', crash_prop='C12', chunk=50))
     o.extra['distinct_states_measure'] = 'visited (tool, option flags, input class, exit class, hard-fault fired, transient fired) tuples'
@@ -314,7 +315,7 @@ def check_C20(tier, seed):
                      'byte_array mirror: std::vector<unsigned char>; pop_back on an empty value is not generated (undefined for std::vector)',
                      'after an injected std::bad_alloc only the other variables are required to be unchanged (no strong guarantee is stated)',
                      'the hex half of this check is model-based input sampling, not schedule/fault search (DESIGN §3 W6)']
-    n = 60000 if tier == 'quick' else 1200000
+    n = 150000 if tier == 'quick' else 1200000
     flv = [('rel', n // 3), ('nostl', n)] if tier == 'quick' else [('rel', n // 3), ('nostl', n), ('nostlsan', n // 6)]
     for fl, k in flv:
         exe = world_exe('bytes', 'asm', (4, 2, 4), fl)
@@ -334,8 +335,9 @@ def check_C10(tier, seed):
                      '"changes every share" is judged only on the random tape and only when the words drawn during the call are pairwise distinct and non-zero',
                      'replace() is generated with sizes 0..7, store_partial/load_partial with 1..7 (documented ranges)']
     if tier == 'quick':
-        cfgs = [('asm', (4, 2, 4), 30000), ('c64', (3, 3, 3), 12000), ('c32', (2, 1, 2), 12000), ('c64', (4, 4, 4), 8000), ('c32', (4, 3, 4), 8000),
-                ('asm', (3, 3, 3), 8000), ('dxor', (4, 2, 4), 6000), ('gen', (3, 1, 3), 6000), ('asm', (4, 1, 4), 6000), ('c64', (2, 2, 2), 6000), ('c32', (4, 4, 4), 6000)]
+        cfgs = [('asm', (4, 2, 4), 80000), ('c64', (3, 3, 3), 40000), ('c32', (2, 1, 2), 40000), ('c64', (4, 4, 4), 25000), ('c32', (4, 3, 4), 25000),
+                ('asm', (3, 3, 3), 25000), ('dxor', (4, 2, 4), 20000), ('gen', (3, 1, 3), 20000), ('asm', (4, 1, 4), 20000), ('c64', (2, 2, 2), 20000), ('c32', (4, 4, 4), 20000),
+                ('asm', (3, 2, 4), 15000), ('c64', (2, 2, 3), 15000), ('c32', (2, 1, 4), 15000), ('c64', (3, 1, 4), 15000)]
     else:
         cfgs = [(be, sh, 40000) for be in ('asm', 'c64', 'c32') for sh in B.ALL_SHARES] + [('dxor', (4, 2, 4), 40000), ('dxor', (3, 3, 3), 40000), ('gen', (3, 1, 3), 40000), ('gen', (4, 4, 4), 40000)]
     for be, sh, n in cfgs:
@@ -355,7 +357,7 @@ def check_C06(tier, seed):
                      'self-tested against test/kat/ISAP-A-*.txt and ASCON-*-SIV.txt at start-up (failure => exit 2)',
                      'for SIV the keystream pass follows the property anchor and the KAT files (permute-then-squeeze); doc/siv.dox prose differs and is not used',
                      'the "equals the specification" clauses are model-based sampling of inputs; the history part (packets on one key, save/load/restart) is the simulation target']
-    n = 30000 if tier == 'quick' else 600000
+    n = 100000 if tier == 'quick' else 600000
     cfgs = [('asm', (4, 2, 4)), ('c64', (4, 2, 4)), ('c32', (4, 2, 4)), ('dxor', (4, 2, 4)), ('gen', (4, 2, 4))]
     for i, (be, sh) in enumerate(cfgs):
         exe = world_exe('keystore', be, sh, 'rel')
@@ -418,7 +420,7 @@ def check_C17(tier, seed):
         o.write_evidence(1, [], [v['replay']])
         return 1
     o.extra['compile_obligation'] = 'asim/worlds/cppobj.cpp compiled: every public member and overload of the C++ classes is instantiated there'
-    n = 40000 if tier == 'quick' else 800000
+    n = 120000 if tier == 'quick' else 800000
     cfgs = [('asm', (4, 2, 4)), ('c64', (4, 2, 4)), ('c32', (4, 2, 4)), ('dxor', (4, 2, 4)), ('gen', (4, 2, 4))] if tier == 'quick' else \
            [('asm', (4, 2, 4)), ('c64', (4, 2, 4)), ('c32', (4, 2, 4)), ('dxor', (4, 2, 4)), ('gen', (4, 2, 4)), ('c64', (3, 2, 3)), ('c32', (2, 2, 2)), ('gen', (4, 4, 4))]
     for i, (be, sh) in enumerate(cfgs):
@@ -471,6 +473,13 @@ def check_C13(tier, seed):
             exe = world_exe(world, be, (4, 2, 4), 'rel')
             k = n * scale // (1 if bi == 0 else 4 if tier == 'thorough' else 6)
             o.add(D.run_batch(exe, k, tier, seed, env={'ASIM_TWIN': '1'}, label='%s@%s-rel-twin' % (world, be), crash_prop='C12'))
+    # object layouts depend on the share configuration (masked keys, masked words): reduced MAX_SHARES builds as well
+    share_cfgs = [('asm', (3, 3, 3)), ('c64', (2, 1, 2)), ('c32', (3, 3, 3)), ('c64', (4, 3, 4))] if tier == 'quick' else \
+                 [(be, sh) for be in ('asm', 'c64', 'c32') for sh in ((2, 1, 2), (2, 2, 2), (3, 3, 3), (3, 1, 3), (2, 2, 3), (4, 3, 4), (4, 4, 4))]
+    for be, sh in share_cfgs:
+        for world, n in (('channel', 12000), ('cppobj', 12000)):
+            exe = world_exe(world, be, sh, 'rel')
+            o.add(D.run_batch(exe, n * scale // 2, tier, seed, env={'ASIM_TWIN': '1'}, label='%s@%s-%d%d%d-rel-twin' % (world, be, *sh), crash_prop='C12'))
     o.extra['distinct_states_measure'] = 'union of the state tuples of the reused worlds (object type x operation x phase)'
     o.extra['objects_covered'] = ['ascon_state_t', 'incremental AEAD x3', 'hash/hasha', 'xof/xofa (plain, fixed, custom)', 'prf', 'hmac/hmaca', 'kmac/kmaca', 'kdf/kdfa',
                                   'hkdf/hkdfa', 'ascon_random_state_t', 'ISAP pre-computed keys x3', 'masked keys 128/160', 'C++ aead/masked/siv/isap classes (destructor and clear())',
@@ -492,7 +501,10 @@ def check_C12(tier, seed):
     if tier == 'quick':
         plan = [('asm', (4, 2, 4), 'san', libw, 20000), ('c64', (3, 3, 3), 'san', ['stream', 'channel', 'masked', 'cppobj'], 12000),
                 ('c32', (2, 1, 2), 'san', ['stream', 'channel', 'masked', 'keystore', 'cppobj'], 12000), ('dxor', (4, 4, 4), 'san', ['stream', 'channel', 'masked'], 8000),
-                ('gen', (4, 2, 4), 'san', ['stream', 'channel'], 8000)]
+                ('gen', (4, 2, 4), 'san', ['stream', 'channel'], 8000),
+                # key shares below the maximum, data shares below the key shares: array sizes and loop bounds differ
+                ('asm', (3, 2, 4), 'san', ['masked', 'channel', 'cppobj'], 8000), ('c64', (2, 2, 3), 'san', ['masked', 'channel', 'cppobj'], 8000),
+                ('c32', (2, 1, 4), 'san', ['masked', 'channel'], 8000), ('c64', (3, 1, 4), 'san', ['masked', 'channel'], 6000)]
         nb, ncli = 40000, 4000
     else:
         plan = [(be, sh, 'san', libw, 30000) for be, sh in [('asm', (4, 2, 4)), ('asm', (3, 1, 3)), ('asm', (2, 2, 2)), ('c64', (3, 3, 3)), ('c64', (4, 4, 4)), ('c64', (2, 1, 2)),
